@@ -53,8 +53,8 @@ NODE_LEVEL = [n for n in WRAPPERS if 'individual_based' in n or 'pair_based' in 
 
 
 @st.composite
-def ode_case(draw):
-    c = draw(ac.analytic_case(names=(NODE_LEVEL if draw(st.integers(0, 3)) == 0 else WRAPPERS), nmax=10, labels=('int',)))
+def ode_case(draw, name=None):
+    c = draw(ac.analytic_case(names=([name] if name else (NODE_LEVEL if draw(st.integers(0, 3)) == 0 else WRAPPERS)), nmax=10, labels=('int',)))
     c['bij'] = draw(bijection(c['gc']['nodes']))
     return c
 
@@ -292,6 +292,7 @@ def run(ctx):
                        'for the SIR engine only node histories (not the tie-dependent infector) are compared']
     only = getattr(ctx, 'only', None)
     if not only or 'ode' in only:
-        run_hypothesis(ctx, 'ode', ode_case(), prop_ode, 500 if quick else 15000, rounds=5)
+        for nm in WRAPPERS:          # every entry point gets its share (a sampler over entry names spreads unevenly)
+            run_hypothesis(ctx, 'ode', ode_case(nm), prop_ode, (30 if nm in NODE_LEVEL else 16) if quick else 500, rounds=3)
     if not only or 'simulators' in only:
         run_hypothesis(ctx, 'simulators', sim_case(), prop_sim, 2500 if quick else 30000)
